@@ -278,8 +278,9 @@ def check(ctx, run):
                 raise Unknown("print of %r" % (v,))
             return 0
         pr.wants_ev = True
-        names = {100: NAME, 200: OTHER}
-        hooks = string_hooks({"UtestShell::getName": lambda o, *a_: ("str", names.get(o, "?")), "UtestShell::getGroup": lambda o, *a_: ("str", GROUP), "UtestShell::willRun": lambda *a_: answers.get("willRun", 1),
+        names = {100: NAME, 200: OTHER, 300: ""}
+        groups = {100: GROUP, 200: "x]y", 300: ""}
+        hooks = string_hooks({"UtestShell::getName": lambda o, *a_: ("str", names.get(o, "?")), "UtestShell::getGroup": lambda o, *a_: ("str", groups.get(o, GROUP)), "UtestShell::willRun": lambda *a_: answers.get("willRun", 1),
                               "TestResult::getCurrentTestTotalExecutionTime": lambda *a_: 123, "TestResult::getCurrentGroupTotalExecutionTime": lambda *a_: 456,
                               "TestFailure::getTestNameOnly": lambda *a_: ("str", NAME), "TestFailure::getFileName": lambda *a_: ("str", "fi'le.cpp"), "TestFailure::getFailureLineNumber": lambda *a_: 7,
                               "TestFailure::getMessage": lambda *a_: ("str", "mess]age\nline2"), "TestFailure::getTestFileName": lambda *a_: ("str", "te|st.cpp"), "TestFailure::getTestLineNumber": lambda *a_: 3,
@@ -287,37 +288,54 @@ def check(ctx, run):
         for pc in PRINT_CLASSES:
             hooks[pc + "::print"] = pr
             hooks[pc + "::printBuffer"] = pr
-        ev = Evaluator(prog, f, env=dict({q["name"]: 100 for q in f.params}, **env), calls=hooks)
+        ev = Evaluator(prog, f, env=dict({q["name"]: answers.get("arg", 100) for q in f.params}, **env), calls=hooks)
         ev.pass_object = True
+        ev.heap_mode = True             # (objects are their addresses: the address of a test reference is that test)
         ev.inline = {g.qn for g in prog.functions.values() if g.qn.startswith(CLS + "::") and g.name not in ("print", "printBuffer")}
         ev.run_blocks(f.entry, max_steps=30000)
-        return "".join(out), ev.env
-    CASES = [
-        ("printCurrentTestStarted", {}, {"willRun": 1}, [("testStarted", {"name": NAME})], {"currtest_": 100}, "a test that runs"),
-        ("printCurrentTestStarted", {}, {"willRun": 0}, [("testStarted", {"name": NAME}), ("testIgnored", {"name": NAME})], {"currtest_": 100}, "an ignored test (testIgnored iff !willRun())"),
-        ("printCurrentTestEnded", {"currtest_": 100}, {}, [("testFinished", {"name": NAME, "duration": "123"})], {}, "finish names the test stored at start"),
-        ("printCurrentTestEnded", {"currtest_": 200}, {}, [("testFinished", {"name": OTHER, "duration": "123"})], {}, "finish names the test stored at start (another one)"),
-        ("printCurrentGroupStarted", {"currGroup_": ("str", "")}, {}, [("testSuiteStarted", {"name": GROUP})], {"currGroup_": ("str", GROUP)}, "suite start names and stores the group"),
-        ("printCurrentGroupStarted", {"currGroup_": ("str", GROUP)}, {}, [("testSuiteStarted", {"name": GROUP})], {"currGroup_": ("str", GROUP)}, "suite start when the group remembered from an earlier run (-r2, one output object) has the same name: every finish has its start"),
-        ("printCurrentGroupStarted", {"currGroup_": ("str", "x]y")}, {}, [("testSuiteStarted", {"name": GROUP})], {"currGroup_": ("str", GROUP)}, "suite start after another group"),
-        ("printCurrentGroupEnded", {"currGroup_": ("str", GROUP)}, {}, [("testSuiteFinished", {"name": GROUP})], {}, "suite end names the stored group"),
-        ("printCurrentGroupEnded", {"currGroup_": ("str", "x]y")}, {}, [("testSuiteFinished", {"name": "x]y"})], {}, "suite end names the stored group (another one)"),
+        pnames = {q["name"] for q in f.params}
+        # (what is carried to the next call: the object's state - not the parameters, not the fold's own string-literal memory)
+        return "".join(out), {k_: v_ for k_, v_ in ev.env.items() if k_.split(".")[0].split("[")[0] not in pnames and not re.match(r"^L\d+\[", k_)}
+    # histories of writer calls on one output object (its state is what its own constructor and the earlier calls left: no private
+    # member is named here): each call emits exactly the expected messages; a finish names what the matching start announced
+    from .common import object_state
+    try:
+        state0 = object_state(prog, CLS, [], [], steps=[], hooks=string_hooks({"ConsoleTestOutput::ConsoleTestOutput": lambda *a_: 0, "TestOutput::TestOutput": lambda *a_: 0}))
+    except Unknown as u:
+        raise AnalysisBroken("C20.R3: the output object cannot be built by folding its constructor: %s" % u)
+    T1, T2, T3 = 100, 200, 300            # tests: (NAME, GROUP), (OTHER, "x]y"), ("", "")
+    HISTORIES = [
+        ("a test that runs: finish names the test announced at start",
+         [("printCurrentTestStarted", T1, {"willRun": 1}, [("testStarted", {"name": NAME})]), ("printCurrentTestEnded", T1, {}, [("testFinished", {"name": NAME, "duration": "123"})])]),
+        ("an ignored test (testIgnored iff !willRun())",
+         [("printCurrentTestStarted", T1, {"willRun": 0}, [("testStarted", {"name": NAME}), ("testIgnored", {"name": NAME})]), ("printCurrentTestEnded", T1, {}, [("testFinished", {"name": NAME, "duration": "123"})])]),
+        ("two tests in a row: each finish names its own start",
+         [("printCurrentTestStarted", T1, {}, [("testStarted", {"name": NAME})]), ("printCurrentTestEnded", T1, {}, [("testFinished", {"name": NAME, "duration": "123"})]),
+          ("printCurrentTestStarted", T2, {}, [("testStarted", {"name": OTHER})]), ("printCurrentTestEnded", T2, {}, [("testFinished", {"name": OTHER, "duration": "123"})])]),
+        ("a test with an empty name is started and finished like any other",
+         [("printCurrentTestStarted", T3, {}, [("testStarted", {"name": ""})]), ("printCurrentTestEnded", T3, {}, [("testFinished", {"name": "", "duration": "123"})])]),
+        ("a suite: start names the group, finish names the same group",
+         [("printCurrentGroupStarted", T1, {}, [("testSuiteStarted", {"name": GROUP})]), ("printCurrentGroupEnded", T1, {}, [("testSuiteFinished", {"name": GROUP})])]),
+        ("two suites in a row, then the first one again (a second run with the same output object): every finish has its start",
+         [("printCurrentGroupStarted", T1, {}, [("testSuiteStarted", {"name": GROUP})]), ("printCurrentGroupEnded", T1, {}, [("testSuiteFinished", {"name": GROUP})]),
+          ("printCurrentGroupStarted", T2, {}, [("testSuiteStarted", {"name": "x]y"})]), ("printCurrentGroupEnded", T2, {}, [("testSuiteFinished", {"name": "x]y"})]),
+          ("printCurrentGroupStarted", T2, {}, [("testSuiteStarted", {"name": "x]y"})]), ("printCurrentGroupEnded", T2, {}, [("testSuiteFinished", {"name": "x]y"})]),
+          ("printCurrentGroupStarted", T1, {}, [("testSuiteStarted", {"name": GROUP})]), ("printCurrentGroupEnded", T1, {}, [("testSuiteFinished", {"name": GROUP})])]),
     ]
-    for fname, env, ans, want, state, desc in CASES:
-        try:
-            text, env_after = fold_writer(fname, env, ans)
-        except Unknown as u:
-            run.broke("C20.R3: %s cannot be folded: %s" % (fname, u))
-            continue
-        msgs = parse_messages(text)
-        why = ""
-        if msgs is None:
-            why = "emitted text does not form complete ##teamcity[...]\\n messages: %r" % text
-        elif msgs != want:
-            why = "messages %s, expected %s (attribute values decoded)" % (msgs, want)
-        elif any(env_after.get(k) != v for k, v in state.items()):
-            why = "state after the writer: %s, expected %s" % ({k: env_after.get(k) for k in state}, state)
-        run.ob("R3", "%s folded: %s" % (fname, desc), CLS + "::" + fname, not why, witness=text, what=why)
+    for desc, calls_ in HISTORIES:
+        st, why, texts = dict(state0), "", []
+        for k_, (fname, arg, ans, want) in enumerate(calls_):
+            try:
+                text, st = fold_writer(fname, st, dict(ans, arg=arg))
+            except Unknown as u:
+                raise AnalysisBroken("C20.R3: %s cannot be folded (call %d of the history '%s'): %s" % (fname, k_ + 1, desc, u))
+            texts.append(text)
+            msgs = parse_messages(text)
+            if msgs is None:
+                why = why or "call %d (%s): the emitted text does not form complete ##teamcity[...]\\n messages: %r" % (k_ + 1, fname, text)
+            elif msgs != want:
+                why = why or "call %d (%s): messages %s, expected %s (attribute values decoded)" % (k_ + 1, fname, msgs, want)
+        run.ob("R3", "writers folded in sequence: %s" % desc, CLS + "::" + calls_[0][0], not why, witness="".join(texts), what=why)
     for outside, helper in ((0, 0), (1, 0), (0, 1)):
         try:
             text, env_after = fold_writer("printFailure", {}, {"outside": outside, "helper": helper})
